@@ -25,6 +25,35 @@ class VoidTranscriptPrinter:
     def dump(self, transcript_model_constructor, transcript_model_storage=None):
         pass
 
+    def add_models(self, gene_info, transcript_model_storage):
+        pass
+
+    def dump_added_models(self):
+        pass
+
+
+# what GFFPrinter.dump needs of the gene info of one processed region, kept until the chromosome is complete
+class GFFGeneAnnotation:
+    def __init__(self, chr_id):
+        self.chr_id = chr_id
+        self.gene_regions = {}
+        self.feature_attributes = {}
+        self.sources = {}
+
+    def add(self, gene_info):
+        if not gene_info.empty():
+            for gene_id, region in gene_info.get_gene_regions().items():
+                self.gene_regions[gene_id] = max_range(self.gene_regions[gene_id], region) \
+                    if gene_id in self.gene_regions else region
+        self.feature_attributes.update(gene_info.feature_attributes)
+        self.sources.update(gene_info.sources)
+
+    def empty(self):
+        return not self.gene_regions
+
+    def get_gene_regions(self):
+        return self.gene_regions
+
 
 class GFFPrinter:
     exon_id_dict = {}
@@ -55,11 +84,30 @@ class GFFPrinter:
                 self.out_r2t.write("#read_id\ttranscript_id\n")
 
         self.check_canonical = check_canonical
+        # models of the regions of one chromosome, see add_models / dump_added_models
+        self.added_models = []
+        self.added_annotation = None
 
     def __del__(self):
         self.out_gff.close()
         if self.output_r2t:
             self.out_r2t.close()
+
+    # a gene may be processed in several regions: its record (extent, number of transcripts) is complete
+    # only when the whole chromosome is done, so the models are collected and written together
+    def add_models(self, gene_info, transcript_model_storage):
+        if not transcript_model_storage:
+            return
+        if self.added_annotation is None:
+            self.added_annotation = GFFGeneAnnotation(gene_info.chr_id)
+        self.added_annotation.add(gene_info)
+        self.added_models += transcript_model_storage
+
+    def dump_added_models(self):
+        if self.added_annotation is not None:
+            self.dump(self.added_annotation, self.added_models)
+        self.added_models = []
+        self.added_annotation = None
 
     def dump(self, gene_info, transcript_model_storage):
         if not transcript_model_storage:
